@@ -12,3 +12,5 @@ import ShkModel.Props.C05
 import ShkModel.Props.C07
 import ShkModel.Props.C16
 import ShkModel.Props.C19
+import ShkModel.Props.C12
+import ShkModel.Props.C13
